@@ -31,6 +31,6 @@ def run(j):
         return name, "ERR", t[-300:]
 
 
-with ThreadPoolExecutor(4) as ex:
+with ThreadPoolExecutor(8) as ex:
     for res in ex.map(run, jobs):
         print(*res, flush=True)
